@@ -654,6 +654,12 @@ class Engine(object):
       for lookup_map in self._unused_lookups:
         if self.dep_graph.remove_node_if_unused(lookup_map.node):
           self.delete_column(lookup_map)
+          # Sorted versions of this lookup map must not outlive it: one that only trigger formulas
+          # use is never marked unused itself, and would keep answering from the deleted map.
+          table = self.tables.get(lookup_map.table_id)
+          for helper in (table.get_sorted_lookup_helpers(lookup_map) if table else []):
+            if self.dep_graph.remove_node_if_unused(helper.node):
+              self.delete_column(helper)
     finally:
       self._unused_lookups.clear()
       self._post_update()
